@@ -213,6 +213,18 @@ ClearAll(t) ==
   /\ Dirty
   /\ UNCHANGED <<cfgv, nsg, sgOf, runlg, evalv>>
 
+\* GraphT::clear(): destroys every node and every subgraph; a fresh subgraph 0 is created
+ClearGraph(t) ==
+  /\ Building(t)
+  /\ nsg' = 1
+  /\ alive' = {}
+  /\ dep' = [n \in DOMAIN dep |-> <<>>] /\ npred' = [n \in DOMAIN npred |-> 0]
+  /\ ninc' = [n \in DOMAIN ninc |-> 0] /\ bset' = [n \in DOMAIN bset |-> 0]
+  /\ sets' = [k \in DOMAIN sets |-> {}]
+  /\ apred' = [n \in DOMAIN apred |-> <<>>] /\ acls' = {} /\ ainc' = {}
+  /\ Dirty
+  /\ UNCHANGED <<cfgv, sgOf, runlg, evalv>>
+
 \* GraphT(GraphT&&): nothing observable changes
 MoveGraph(t) ==
   /\ Building(t)
